@@ -314,7 +314,7 @@ def run(ctx):
     for i in range(n):
         rng = ctx.sub_rng(i)
         n_ids, subs = gen_case(rng)
-        run_case(ctx, chi, rng, n_ids, subs)
+        ctx.guard(run_case, ctx, chi, rng, n_ids, subs)
     if ctx.tier == 'thorough':
         exhaustive(ctx, chi)
 
